@@ -56,3 +56,7 @@ def run(ctx, config='rel-all'):
     # ---- R2: the drain_filter guard computes its length from fields that obey std's formulas
     from . import drainfilter
     drainfilter.check(ctx, config, 'R2')
+    # ---- R3 Drain / Splice consume the drained range element by element (`for_each(drop)`: each element leaves the iterator
+    # before its destructor runs, so a panicking destructor is never run again by Drain::drop) and follow std's formulas
+    from . import splice
+    splice.check(ctx, config, 'R3')
